@@ -1126,7 +1126,7 @@ Lemma way_out_returns n es : forall s d,
   \/ (polls s1 = S n /\ exists d', ret_dist (pp s1) = Some d' /\ (d' + poller_events es <= d)%nat).
 Proof.
   induction es as [|e es IH]; intros s d Hn Hd; cbv zeta.
-  - right. cbn [run fst]. split; [exact Hn|]. exists d. split; [exact Hd|cbn; lia].
+  - right. cbn [run fst]. split; [exact Hn|]. exists d. split; [exact Hd|unfold poller_events; cbn [filter length]; lia].
   - rewrite run_cons_fst.
     assert (Hp : forall s', (s' = pstep s) -> is_poller_ev e = true ->
               fst (step s e) = s' ->
